@@ -482,7 +482,46 @@ Section WithHash.
       injection D as <-. reflexivity. }
     rewrite <- Hh, <- E. unfold Wire.encode_msg, set_hops, set_byte1. reflexivity.
   Qed.
+  (* ---------- the guard of SendMessageWithHopsToLive ---------- *)
+
+  (* an over-long service name: refused, no packet *)
+  Theorem first_hop_refused self m :
+    (8 < blen (m_fsvc m) \/ 8 < blen (m_tsvc m)) -> first_hop_packet hash self m = None.
+  Proof.
+    intro H. unfold Wire.first_hop_packet, send_refused.
+    replace ((8 <? blen (m_fsvc m)) || (8 <? blen (m_tsvc m))) with true by lia. reflexivity.
+  Qed.
+
+  (* a packet that is sent carries both service names whole: the 8-byte fields are the names
+     followed by NULs only, nothing was cut *)
+  Theorem first_hop_names_whole self m p :
+    first_hop_packet hash self m = Some p ->
+    firstn 8 (skipn 20 p) = m_fsvc m ++ repeat 0 (8 - length (m_fsvc m)) /\
+    firstn 8 (skipn 28 p) = m_tsvc m ++ repeat 0 (8 - length (m_tsvc m)) /\
+    skipn 36 p = m_data m.
+  Proof.
+    unfold Wire.first_hop_packet, send_refused, blen. intro H.
+    destruct ((8 <? N.of_nat (length (m_fsvc m))) || (8 <? N.of_nat (length (m_tsvc m)))) eqn:G; [discriminate|].
+    injection H as <-.
+    assert (Lf : (length (m_fsvc m) <= 8)%nat) by lia.
+    assert (Lt : (length (m_tsvc m) <= 8)%nat) by lia.
+    destruct (encode_fields self m) as (_ & _ & F3 & F4 & F5 & _).
+    unfold Wire.encode_msg in *. cbn [app set_byte1] in *.
+    change (skipn 20 (0 :: (m_hops m - 1) :: ?r)) with (skipn 20 (0 :: m_hops m :: r)).
+    rewrite <- (pad8_short _ Lf), <- (pad8_short _ Lt).
+    repeat split; assumption.
+  Qed.
+
+  (* why the guard is needed: without it a longer name would travel as its first 8 bytes, i.e.
+     as ANOTHER service's name *)
+  Lemma pad8_long s : (8 <= length s)%nat -> pad8 s = firstn 8 s.
+  Proof.
+    intro L. unfold pad8. rewrite firstn_app.
+    replace (8 - length s)%nat with 0%nat by lia. cbn [firstn]. apply app_nil_r.
+  Qed.
 End WithHash.
+
+
 
 (* non-vacuity of the hypotheses of decode_encode_known: a toy injective hash on three names *)
 Definition toy_hash (n : bytes) : N := be_dec n 0.
@@ -493,3 +532,10 @@ Example decode_encode_instance :
   decode_msg (add_names toy_hash (str "a"%string) (init_tbl toy_hash (str "a"%string)) ns)
              (encode_msg toy_hash (str "node-b"%string) m) = DOk m.
 Proof. vm_compute. reflexivity. Qed.
+
+Example overlong_name_would_alias :
+  pad8 (str "abcdefghi"%string) = pad8 (str "abcdefgh"%string)
+  /\ first_hop_packet toy_hash (str "a"%string)
+       {| m_from := str "a"%string; m_fsvc := str "src"%string; m_to := str "b"%string;
+          m_tsvc := str "abcdefghi"%string; m_hops := 30; m_data := [] |} = None.
+Proof. split; vm_compute; reflexivity. Qed.
